@@ -263,14 +263,19 @@ def run_scenario(run: Run, scen: dict, rng: random.Random):
                     pass
         else:
             # central finite differences of the reference (Lean float) evaluation
+            lscale = [0.0]
+
             def Lval(theta):
                 vals = mc.eval(theta, X)
-                tot = 0.0
+                tot, sc_ = 0.0, 0.0
                 for b, row in enumerate(vals):
                     for o, out in enumerate(row):
                         for k, v in enumerate(out):
                             if c[b, o, k] != 0:
-                                tot += c[b, o, k] * (float(v) if semiring == "sum-product" else float(np.log(float(v))))
+                                t_ = c[b, o, k] * (float(v) if semiring == "sum-product" else float(np.log(float(v))))
+                                tot += t_
+                                sc_ += abs(t_)
+                lscale[0] = max(lscale[0], sc_)
                 return tot
 
             for (u, j) in entries:
@@ -281,7 +286,8 @@ def run_scenario(run: Run, scen: dict, rng: random.Random):
                 fd = (Lval(tp) - Lval(tm)) / (2 * FD_H)
                 got = float(np.real(base[u][j]))
                 run.evaluations += 1
-                if abs(got - fd) <= 1e-5 * max(1.0, abs(fd), abs(got)):
+                # truncation O(h^2) plus cancellation: the objective is a sum of terms of size lscale, known to ~1e-15
+                if abs(got - fd) <= 1e-5 * max(1.0, abs(fd), abs(got)) + 4e-15 * lscale[0] / FD_H:
                     run.tolerance += 1
                 else:
                     run.violation("gradient-wrong", dict(scen, X=X, entry=[u, j]),
